@@ -560,3 +560,170 @@ def buckets(case, ans):
         kept = T.ref_kept(case["lines"], case["syntax"] == "ios", case["ignore_blank"])
         out += ["feat:" + f for f in sorted(T.link_features(kept, case["syntax"] == "ios", T.cfg_delims(case["syntax"], case["delims"])))]
     return out
+
+
+# ================================================================== two live instances (stream `pair`, see props/pairlib.py)
+# Appended as wrappers around the functions above, so that the single-instance streams and their seeds stay as they were.
+# A pair case: two configs from one template, BOTH parsed first; then the family views (links + seven views, the
+# extended views, the raw stored attributes) of A, then of B, then of A again (...).  Every dump is judged by the forest
+# oracle above on the instance it was taken from and compared with the model's answer for that instance alone; an instance
+# must show the same views before and after the other one was looked at.
+from props import pairlib as PL  # noqa: E402
+
+PAIR_OPS = ["forest", "forest", "forestx", "forestx", "stored"]
+
+
+def pair_lines(rng, delims):
+    r = rng.random()
+    if r < 0.45:
+        from props import c04 as S
+        return S.rand_tree_lines(rng, delims)
+    if r < 0.7:
+        return rand_stored_lines(rng, delims)
+    if r < 0.85:
+        return T.rand_nested_config(rng, delims)
+    return T.rand_config(rng, 10, True, delims)
+
+
+def mk_pair(cfgs, plan, ops, muts=(), origin="pair"):
+    """cfgs[i] = dict(syntax, ignore_blank, delims, lines[, opts]); ops[k] = what is dumped at observation k"""
+    subs = []
+    for i, op in zip(plan, ops):
+        c = cfgs[i]
+        if op == "forest":
+            s = mk(c["syntax"], c["ignore_blank"], c["delims"], c["lines"], origin)
+        elif op == "forestx":
+            s = mk_x(c["syntax"], c["ignore_blank"], c["delims"], c["lines"], origin)
+        else:
+            s = mk_stored("stored", c["syntax"], c["ignore_blank"], c["delims"], c["lines"], origin)
+        s["_same"] = op
+        subs.append(s)
+    case = {"pair": True, "cfgs": cfgs, "plan": list(plan), "subs": subs, "ops_seen": list(ops), "mutations": list(muts),
+            "_origin": origin, "lines": cfgs[0]["lines"], "syntax": cfgs[0]["syntax"], "ignore_blank": cfgs[0]["ignore_blank"],
+            "delims": cfgs[0]["delims"]}
+    case["req"] = PL.wrap_req([s["req"] for s in subs])
+    return case
+
+
+def rand_pair(rng):
+    delims = rng.choice(T.DELIM_SETS)
+    a = {"syntax": rng.choice(["ios", "ios"] + T.SYNTAXES), "ignore_blank": rng.random() < 0.25, "delims": delims,
+         "lines": pair_lines(rng, delims), "opts": T.rand_options(rng, 0.15)}
+    r = rng.random()
+    if r < 0.08:
+        lines, muts = list(a["lines"]), ["identical"]
+    elif r < 0.14:
+        lines, muts = pair_lines(rng, delims), ["unrelated"]
+    else:
+        lines, muts = PL.variant(rng, a["lines"], ["shutdown", "a", "b", "^", "@", "! c", "banner motd ^"])
+    syntax, ign, ds = PL.option_variant(rng, a["syntax"], a["ignore_blank"], delims, T.SYNTAXES, T.DELIM_SETS)
+    b = {"syntax": syntax, "ignore_blank": ign, "delims": ds, "lines": lines, "opts": T.rand_options(rng, 0.15)}
+    plan = PL.rand_plan(rng)
+    op = rng.choice(PAIR_OPS)
+    ops = [op if rng.random() < 0.8 else rng.choice(PAIR_OPS) for _ in plan]
+    return mk_pair([a, b], plan, ops, muts)
+
+
+def pair_cases(rng, tier):
+    for _ in range({"quick": 600, "thorough": 20000, "search": 300}[tier]):
+        yield rand_pair(rng)
+
+
+def impl_pair(case):
+    parses = []
+    for c in case["cfgs"]:
+        base = T.with_options(T.mk_case("forest", c["syntax"], False, c["ignore_blank"], c["delims"], c["lines"]), c.get("opts"))
+        try:
+            parses.append(T.parse_impl_opts(base))
+        except BaseException as e:  # noqa: BLE001
+            if type(e).__name__ == "CaseTimeout":
+                raise
+            parses.append("err:" + type(e).__name__)
+    tags = PL.tags_for([s["req"] for s in case["subs"]])
+    parts = []
+    for k, sub in enumerate(case["subs"]):
+        p = parses[case["plan"][k]]
+        if isinstance(p, str):
+            ans = p
+        elif sub.get("stream") == "stored":
+            ans = dump_stored(list(p.config_objs.data))
+        elif sub.get("stream") == "viewsx":
+            ans = T.dump_links(p) + "&" + dump_views_x(p)
+        else:
+            ans = T.dump_links(p) + "&" + T.dump_views(p)
+        parts.append((tags[k], ans))
+    return PL.join_parts(parts)
+
+
+def pair_neighbours(case, rng):
+    for _ in range(120):
+        a = case["cfgs"][0]
+        lines, muts = PL.variant(rng, a["lines"], ["shutdown", "a", "b", "! c"])
+        yield mk_pair([a, dict(case["cfgs"][1], lines=lines)], case["plan"], case["ops_seen"], muts)
+
+
+def _pair_describe(case):
+    keys = ("syntax", "ignore_blank", "delims", "lines", "opts")
+    return {"two_live_instances": "both configs are parsed first, then the observations run in this order",
+            "A": {k: case["cfgs"][0][k] for k in keys if case["cfgs"][0].get(k) not in ({}, None) or k == "delims"},
+            "B": {k: case["cfgs"][1][k] for k in keys if case["cfgs"][1].get(k) not in ({}, None) or k == "delims"},
+            "B_differs_from_A_by": case.get("mutations"),
+            "observations": ["%s of %s" % (op, "AB"[i]) for i, op in zip(case["plan"], case["ops_seen"])]}
+
+
+_single = {"cases": cases, "impl": impl, "oracle": oracle, "neighbours": neighbours, "nontrivial": nontrivial,
+           "describe": describe, "buckets": buckets}
+
+
+def cases(rng, tier):  # noqa: F811
+    yield from _single["cases"](rng, tier)
+    if PL.enabled():
+        yield from pair_cases(rng, tier)
+
+
+def impl(case):  # noqa: F811
+    return impl_pair(case) if case.get("pair") else _single["impl"](case)
+
+
+def oracle(case, ans):  # noqa: F811
+    return PL.oracle(case, ans, _single["oracle"]) if case.get("pair") else _single["oracle"](case, ans)
+
+
+def compare(case, impl_ans, model_ans):
+    return PL.compare(impl_ans, model_ans) if case.get("pair") else impl_ans == model_ans
+
+
+def neighbours(case, rng):  # noqa: F811
+    return pair_neighbours(case, rng) if case.get("pair") else _single["neighbours"](case, rng)
+
+
+def nontrivial(case):  # noqa: F811
+    if case.get("pair"):
+        return PL.shared_parents(case["cfgs"][0]["lines"], case["cfgs"][1]["lines"]) > 0
+    return _single["nontrivial"](case)
+
+
+def describe(case):  # noqa: F811
+    return _pair_describe(case) if case.get("pair") else _single["describe"](case)
+
+
+def buckets(case, ans):  # noqa: F811
+    if case.get("pair"):
+        return PL.buckets(case) + ["pair:dump:" + op for op in sorted(set(case["ops_seen"]))]
+    return _single["buckets"](case, ans)
+
+
+RULE += (" PAIR STREAM (two LIVE instances; props/pairlib.py, channel `pair`): 600 (quick) cases hold two configs built from ONE template "
+         "(C04's tree generator, the stored-list generator, nested banner / macro blocks): B = A with 1-3 of {a child's text replaced, a child "
+         "re-indented one level deeper / shallower, turned into a comment, blanked, two children swapped, a child inserted / deleted / moved "
+         "under another parent, a run of siblings pushed one level down} (8 % identical, 6 % unrelated), so that parent lines coincide in "
+         "(line number, text) -- line objects hash and compare by that pair -- while the lines below them differ; same or different syntax / "
+         "ignore_blank_lines / comment delimiters / parse options. BOTH are parsed first, then the links + seven views, the extended views "
+         "or the raw stored attributes are dumped in the orders ABA, ABAB, BAB, ABBA, AABA; every dump is judged by the forest oracle on the "
+         "instance it was taken from, compared with the model's answer for THAT instance alone, and an instance must show the same dump "
+         "before and after the other one was looked at. VERIF_NO_PAIR=1 leaves the stream out.")
+LEVEL_NOTE += (" Two live instances: the model is a function of one config (channel `pair` only carries ordinary requests; "
+               "Ccp.Drv.Pair.answers_get: the k-th answer depends on the k-th sub-request alone), so 'what an instance shows does not depend on "
+               "other instances being alive' holds for the model by construction and is MEASURED for the code by the pair stream (hand "
+               "mutations: a module-level table of descendants keyed by line number, ancestor chains kept on the class, an lru_cache on "
+               "family_endpoint -- each dropped at every bootstrap -- are reported by the pair stream and by no single-instance stream).")
